@@ -285,7 +285,17 @@ def install(lib):
         keys = [ex.call(key, [i], {}) for i in items]
         if all(isinstance(k, (int, float, str)) for k in keys):
             return [i for k, i in sorted(zip(keys, items), key=lambda t: t[0], reverse=reverse)]
-        raise Unsupported("sorted with symbolic keys")
+        if reverse or not all(is_sym(k) or is_num(k) for k in keys):
+            raise Unsupported("sorted with symbolic keys (reverse / non-numeric)")
+        # a concrete list with symbolic numeric keys: stable insertion sort, forking on every comparison the path condition does not decide (one path per consistent order)
+        used(ex, "sorted(list, key=...) is a stable sort by the key (symbolic keys: one path per order consistent with the path condition)")
+        out = []
+        for k, i in zip(keys, items):
+            pos = len(out)
+            while pos > 0 and ex.decide(ex.truth(toz(k) < toz(out[pos - 1][0]))):
+                pos -= 1
+            out.insert(pos, (k, i))
+        return [i for _, i in out]
 
     def b_zip(ex, *cols):
         return _Zip(list(cols))
@@ -941,6 +951,11 @@ def install(lib):
         def pyvc_iter(self):
             return [SPLIT(self.rng, i) for i in range(self.n)] if isinstance(self.n, int) else None
 
+        def pyvc_getattr(self, ex, attr):
+            if attr == "reshape":
+                return lambda ex_, *shape: self          # (n, 2) -> (n, 2): the key array keeps one key per row
+            raise Unsupported(f"attribute {attr!r} of a key array")
+
         def pyvc_getitem(self, ex, i):
             if isinstance(i, slice):
                 if isinstance(self.n, int) and all(x is None or isinstance(x, int) for x in (i.start, i.stop, i.step)):
@@ -1052,7 +1067,7 @@ def install(lib):
     lib.rec_methods[("Future", "add_done_callback")] = lambda ex, o: (lambda ex_, cb: None)
     lib.ns["concurrent.futures"] = NS("concurrent.futures", {"Future": CallableTag("Future", future_new), "CancelledError": TypeTag("CancelledError"),
                                                                 "ThreadPoolExecutor": TypeTag("ThreadPoolExecutor")})
-    lib.ns["threading"] = NS("threading", {})
+    lib.ns["threading"] = NS("threading", {"local": lambda ex: Rec("local", {}, module=None)})    # one analysed thread: thread-local storage is an attribute bag
     lib.ns["math"] = NS("math", {"ceil": lambda ex, x: b_int(ex, np_ceil(ex, x)), "floor": lambda ex, x: b_int(ex, np_floor(ex, x)), "inf": _INF})
 
 
